@@ -875,6 +875,14 @@ class Base:
 
         for v in self.leaf_asts():
             if v.hash() not in var_map and v.is_leaf():
+                if v.annotations and v.op in {"BVS", "BoolS", "FPS", "StringS"}:
+                    # an annotated occurrence is the same variable: it gets the name of the plain one
+                    plain = v.clear_annotations()
+                    if plain.hash() not in var_map:
+                        _, nxt, _ = plain.canonicalize(var_map=var_map, counter=next(ctr))
+                        ctr = itertools.count(nxt)
+                    var_map[v.hash()] = var_map[plain.hash()].annotate(*v.annotations)
+                    continue
                 new_name = f"canonical_{next(ctr)}"
                 match v.op:
                     case "BVS":
